@@ -10,6 +10,7 @@ import (
 	"go/token"
 	"go/types"
 	"os"
+	"runtime"
 	"sort"
 	"strconv"
 	"strings"
@@ -717,7 +718,7 @@ func (x *Exec) check(st *State, o *Oblig, goal string) bool {
 		// can report spurious models. The standalone race decides.
 		rr := Race(script, x.raceTimeout, x.inputTerms)
 		o.Ms += rr.Ms
-		if rr.Status != "unsat" && rr.Status != "sat" && x.raceTimeout < 60 {
+		if rr.Status != "unsat" && rr.Status != "sat" && x.raceTimeout < 60 && machineLoaded() {
 			// no engine decided within the (wall-clock) limit: on a loaded machine that is not yet an
 			// answer. One more race with a six times larger limit before the instance counts as failed.
 			rr = Race(script, x.raceTimeout*6, x.inputTerms)
@@ -736,6 +737,21 @@ func (x *Exec) check(st *State, o *Oblig, goal string) bool {
 	}
 	o.Failures = append(o.Failures, f)
 	return false
+}
+
+// machineLoaded: the 1-minute load average exceeds one and a half times the number of CPUs (the solvers'
+// limits are wall-clock, so an undecided query then says little)
+func machineLoaded() bool {
+	b, err := os.ReadFile("/proc/loadavg")
+	if err != nil {
+		return false
+	}
+	f := strings.Fields(string(b))
+	if len(f) == 0 {
+		return false
+	}
+	l, err := strconv.ParseFloat(f[0], 64)
+	return err == nil && l > 1.5*float64(runtime.NumCPU())
 }
 
 func relPath(p string) string {
